@@ -3,7 +3,8 @@
 
 A replay file is a choice tape; its meaning depends on the generator that decodes it, so when a generator is
 extended the pinned regression cases have to be found again.  For every fixed finding in known_findings.json that
-names a replay, this tool checks out the parent of the fix commit into a scratch tree (outside /repo and /verif),
+names a replay, this tool builds a scratch tree (outside /repo and /verif) -- the current tree with only that fix reverted
+(mutants/<PROP>-revert-<commit>.patch) when such a patch exists and applies, else the parent of the fix commit --,
 runs the property's quick check against it, and stores the shrunk failing tape with the recorded signature under
 the pinned name.  It then verifies: the replay fails on the pre-fix tree and passes on /repo.
 
@@ -35,7 +36,11 @@ def main():
         try:
             tree = os.path.join(scratch, 'repo')
             run(['git', 'clone', '-q', '/repo', tree])
-            run(['git', '-C', tree, 'checkout', '-q', commit + '~1'])
+            # isolate the fix: the current tree with only this commit reverted (mutants/<PROP>-revert-<commit>.patch), when that patch
+            # exists and applies; otherwise the parent of the fix (where later repairs are missing as well)
+            rev = os.path.join(VERIF, 'mutants', '%s-revert-%s.patch' % (pid, commit))
+            if not (os.path.exists(rev) and run(['git', '-C', tree, 'apply', rev]).returncode == 0):
+                run(['git', '-C', tree, 'checkout', '-q', commit + '~1'])
             found = None
             for seed in ('1', '2', '3', '4'):
                 env = dict(os.environ, VERIF_REPO=tree, VERIF_OUT=out, VERIF_SEED=seed)
